@@ -354,11 +354,11 @@ PROPS["C14"] = dict(
                "sets, custom double formats) under {comma global, comma per-thread over C global, C per-thread over comma global}; value dumps, end offsets, "
                "status codes and output bytes must equal the C-locale run; around EVERY json_tokener_parse_ex call - success, continue and each error code "
                "incl. depth, size, utf8 and injected out-of-memory - the thread locale handle, the global LC_NUMERIC name, printf's decimal separator and the "
-               "number of live locale objects must be unchanged; the 20 outcome classes x 4 regimes x 3 chunkings are enumerated completely",
+               "number of live locale objects must be unchanged; the 24 outcome classes (incl. malformed floats that reach the text-to-double conversion) x 4 regimes x 3 chunkings are enumerated completely",
     level_note="the comma locale is synthetic (ASCII charmap, decimal_point ',', thousands_sep '.'); only LC_NUMERIC matters to the code under test; newlocale/duplocale/freelocale are counted through link-time interposition",
     rule="(text or tree, regimes, chunking); every case contains a non-integer; non-trivial = all generated cases (each compares 3 non-C regimes); distinct by hash of (text, chunking, flags) or (tree, flags)",
-    quick=[dict(mode="gen", cases=24000, workers=8, maxbytes=2000), dict(mode="classes", enum=True, size=240, workers=1)],
-    thorough=[dict(mode="gen", cases=2400000, workers=16, maxbytes=4000), dict(mode="classes", enum=True, size=240, workers=1),
+    quick=[dict(mode="gen", cases=24000, workers=8, maxbytes=2000), dict(mode="classes", enum=True, size=288, workers=1)],
+    thorough=[dict(mode="gen", cases=2400000, workers=16, maxbytes=4000), dict(mode="classes", enum=True, size=288, workers=1),
               dict(mode="gen", fuzz=True, secs=240, jobs=8, max_len=512)],
     min_labels=dict(quick=dict(parse=8000, serialize=6000, split_inside_number=2000, parse_verbose=1000)),
     assumptions=["glibc's uselocale/newlocale semantics (HAVE_USELOCALE configuration, the one this tree configures to here)"],
